@@ -73,6 +73,7 @@ func child(args []string) {
 	batch := fs.Int("batch", 0, "")
 	nbatch := fs.Int("nbatch", 1, "")
 	only := fs.String("only", "", "")
+	after := fs.String("after", "", "")
 	scratch := fs.String("scratch", "", "")
 	out := fs.String("out", "", "")
 	journal := fs.String("journal", "", "")
@@ -90,6 +91,7 @@ func child(args []string) {
 		fmt.Fprintln(os.Stderr, "HARNESS:", err)
 		os.Exit(3)
 	}
+	c.After = *after
 	p.Run(c)
 	c.Flush(true)
 }
